@@ -37,7 +37,7 @@ def recipe(c: Check):
     cnt = c.cov.get("coq_counters", {}).get("config", {})
     if st is not None and cnt:
         for name, least in (("NROUNDOK", 100), ("NDOMAINBELONGS", 5), ("NDOMAINCASEONLY", 2), ("NINVALID", 50), ("NUNKNOWNTYPE", 5),
-                            ("NTEMPLATEOK", 30), ("NTLSFLAGON", 6)):
+                            ("NTEMPLATEOK", 30), ("NTLSFLAGON", 6), ("NENVOK", 14), ("NENVEQ", 8)):
             if cnt.get(name, 0) < least:
                 c.broken.append(dict(kind="coverage", name="counter %s = %s < %s: the generator no longer reaches a branch the property names"
                                      % (name, cnt.get(name, 0), least), detail=""))
@@ -64,7 +64,9 @@ def recipe(c: Check):
              "RenderWithTemplate, BandwidthQuantity, strconv vs Model/Literals.v; (e) the real cobra flag sets (frpc proxy and visitor sub-commands with the "
              "inherited client flags, frps) built in-process, ParseFlags + Complete, vs the same logical configuration loaded from a file; "
              "(f) generated template documents (text, .Envs, range over parseNumberRangePair / parseNumberRange) through RenderWithTemplate vs "
-             "Model/Template.v, and templated configuration files vs the written-out ones. distinct = distinct case text; "
+             "Model/Template.v, and templated configuration files vs the written-out ones; (g) the harness binary re-executed as a child with a "
+             "chosen process environment (values with '=', trailing '==', '=' first, empty, unicode, long), the child renders / loads a templated "
+             "file through LoadFileContentWithTemplate(path, GetValues()) and LoadClientConfig, compared with Model/Template.v env_build. distinct = distinct case text; "
              "non-trivial = every case (each carries a generated input)",
         assumptions=["strconv.ParseFloat / float product is an oracle: bandwidth theorems hold for any such function; the harness fills it with observed values",
                      "TOML/YAML/JSON parsers, text/template, cobra/pflag are third-party: their agreement is observed on generated documents, not proved",
